@@ -33,6 +33,42 @@ func registerStd(e *Engine) {
 	})
 	e.reg("time.runtimeNano", func(e *Engine, st *State, cc *CallCtx) (Value, bool) { return c.Const(1000000000, 64), true })
 	e.reg("time.registerLoadFromEmbeddedTZData", nop)
+	// sync.Pool: LIFO model (Get returns the most recently Put item if any, else New())
+	poolKey := func(p Ptr) int { return -(p.Obj*64 + len(p.Path) + 1000000) }
+	e.reg("(*sync.Pool).Put", func(e *Engine, st *State, cc *CallCtx) (Value, bool) {
+		p := cc.Args[0].(Ptr)
+		var items []Value
+		if o, ok := st.heap[poolKey(p)]; ok {
+			items = o.(NativeV).V.([]Value)
+		}
+		items = append(append([]Value(nil), items...), cc.Args[1])
+		st.dirty = true
+		st.heap[poolKey(p)] = NativeV{Tag: "pool", V: items}
+		return nil, true
+	})
+	e.reg("(*sync.Pool).Get", func(e *Engine, st *State, cc *CallCtx) (Value, bool) {
+		p := cc.Args[0].(Ptr)
+		if o, ok := st.heap[poolKey(p)]; ok {
+			items := o.(NativeV).V.([]Value)
+			if len(items) > 0 {
+				st.dirty = true
+				st.heap[poolKey(p)] = NativeV{Tag: "pool", V: append([]Value(nil), items[:len(items)-1]...)}
+				return items[len(items)-1], true
+			}
+		}
+		// call New if set
+		pt := cc.Fn.Signature.Recv().Type().(*types.Pointer).Elem().Underlying().(*types.Struct)
+		cell := e.objCell(st, Ptr{Obj: p.Obj, Path: p.Path}).(StructV)
+		for i := 0; i < pt.NumFields(); i++ {
+			if pt.Field(i).Name() == "New" {
+				if fv, ok := cell.F[i].(FuncV); ok && (fv.Fn != nil || fv.Native != "") {
+					e.invokeValue(st, fv, nil, cc.Dest, cc.Mode, nil)
+					return nil, false
+				}
+			}
+		}
+		return IfaceV{}, true
+	})
 	// regexp: opaque native regexps, usable on concrete strings only
 	reCompile := func(must bool) NativeFn {
 		return func(e *Engine, st *State, cc *CallCtx) (Value, bool) {
@@ -87,6 +123,10 @@ func registerStd(e *Engine) {
 			panic(unsupported("regexp replace on symbolic string"))
 		}
 		return StrV{Conc: true, S: reArg(cc.Args[0], "ReplaceAllString").ReplaceAllString(s.S, r.S)}, true
+	})
+	e.reg("(*regexp.Regexp).LiteralPrefix", func(e *Engine, st *State, cc *CallCtx) (Value, bool) {
+		pre, complete := reArg(cc.Args[0], "LiteralPrefix").LiteralPrefix()
+		return TupleV{StrV{Conc: true, S: pre}, c.Bool(complete)}, true
 	})
 	e.reg("(*regexp.Regexp).String", func(e *Engine, st *State, cc *CallCtx) (Value, bool) {
 		return StrV{Conc: true, S: reArg(cc.Args[0], "String").String()}, true
@@ -202,7 +242,35 @@ func registerStd(e *Engine) {
 	e.reg("strings.Split", func(e *Engine, st *State, cc *CallCtx) (Value, bool) {
 		ss, ok := allConcStr([]Value{e.normStr(cc.Args[0].(StrV)), e.normStr(cc.Args[1].(StrV))})
 		if !ok {
-			panic(unsupported("strings.Split on symbolic string"))
+			// symbolic bytes, concrete length, one-byte concrete separator: decide each byte (forks only
+			// where a byte may or may not be the separator)
+			str, sep := e.normStr(cc.Args[0].(StrV)), e.normStr(cc.Args[1].(StrV))
+			if !sep.Conc || len(sep.S) != 1 || str.Conc || !str.Len.IsConst() {
+				panic(unsupported("strings.Split on symbolic string"))
+			}
+			n := int(str.Len.Val)
+			sb := c.Const(uint64(sep.S[0]), 8)
+			var pieces []Value
+			start := 0
+			mk := func(a, b int) Value {
+				arr := c.ConstArr(8, c.Const(0, 8))
+				for k := a; k < b; k++ {
+					arr = c.Store(arr, e.k64(uint64(k-a)), c.Select(str.A, e.k64(uint64(k))))
+				}
+				return e.normStr(StrV{A: arr, Len: e.k64(uint64(b - a))})
+			}
+			for i := 0; i < n; i++ {
+				if e.branch(st, c.Eq(c.Select(str.A, e.k64(uint64(i))), sb)) {
+					pieces = append(pieces, mk(start, i))
+					start = i + 1
+				}
+			}
+			pieces = append(pieces, mk(start, n))
+			id := e.newObj()
+			st.dirty = true
+			st.heap[id] = ArrV{E: pieces}
+			ln := e.k64(uint64(len(pieces)))
+			return SliceV{Base: Ptr{Obj: id}, Off: e.k64(0), Len: ln, Cap: ln}, true
 		}
 		return e.strSliceVal(st, strings.Split(ss[0], ss[1])), true
 	})
